@@ -199,7 +199,11 @@ def handle (op : String) (args : List String) : Option String :=
     let cert := encCert m db cfg d (defaultOrd d) (hint ++ defaultOrd d)
     let acyclic := decide (C17.Acyclic1 (d.map (·.t)))
     pure ("cert=" ++ b01 cert ++ " dg=" ++ b01 (defaultGraphOnly d) ++ " nonative=" ++ b01 (noNativeTyped d) ++
-      " wf=" ++ b01 (decide (WFDataset d)) ++ " acyclic=" ++ b01 acyclic ++ " clash=" ++ b01 (schemeClash cfg d))
+      " wf=" ++ b01 (decide (WFDataset d)) ++ " acyclic=" ++ b01 acyclic ++ " clash=" ++ b01 (schemeClash cfg d) ++
+      -- the hypotheses of encoder_roundtrip_natural_partial (Props/C10Defs.lean)
+      " lbl=" ++ b01 (labelsOK cfg d) ++ " ctx=" ++ b01 (ctxOK cfg d (defaultOrd d) (hint ++ defaultOrd d)) ++
+      " loc=" ++ b01 (locOK cfg d (defaultOrd d) (hint ++ defaultOrd d)) ++
+      " struct=" ++ b01 (structOK cfg d (defaultOrd d) (hint ++ defaultOrd d)))
   | "write", [m, b, chs, cj, lj, qs] => do
     let m ← parseMode m
     let b ← parseBase b
